@@ -25,7 +25,6 @@ import (
 	"github.com/AdguardTeam/golibs/errors"
 	"github.com/AdguardTeam/golibs/hostsfile"
 	"github.com/AdguardTeam/golibs/log"
-	"github.com/AdguardTeam/golibs/mathutil"
 	"github.com/AdguardTeam/golibs/syncutil"
 	"github.com/AdguardTeam/urlfilter"
 	"github.com/AdguardTeam/urlfilter/filterlist"
@@ -152,13 +151,6 @@ type Config struct {
 	// TODO(a.garipov): Use timeutil.Duration
 	CacheTime uint `yaml:"cache_time"` // Element's TTL (in minutes)
 
-	// enabled is used to be returned within Settings.
-	//
-	// It is of type uint32 to be accessed by atomic.
-	//
-	// TODO(e.burkov):  Use atomic.Bool in Go 1.19.
-	enabled uint32
-
 	// FiltersUpdateIntervalHours is the time period to update filters
 	// (in hours).
 	FiltersUpdateIntervalHours uint32 `yaml:"filters_update_interval"`
@@ -237,6 +229,11 @@ type Checker interface {
 type DNSFilter struct {
 	// idGen is used to generate IDs for package urlfilter.
 	idGen *idGenerator
+
+	// enabled is used to be returned within Settings.  It is not a part of
+	// conf, because conf is copied as a whole when the configuration is
+	// written.
+	enabled atomic.Bool
 
 	// bufPool is a pool of buffers used for filtering-rule list parsing.
 	bufPool *syncutil.Pool[[]byte]
@@ -374,7 +371,7 @@ func (r Reason) In(reasons ...Reason) (ok bool) { return slices.Contains(reasons
 
 // SetEnabled sets the status of the *DNSFilter.
 func (d *DNSFilter) SetEnabled(enabled bool) {
-	atomic.StoreUint32(&d.conf.enabled, mathutil.BoolToNumber[uint32](enabled))
+	d.enabled.Store(enabled)
 }
 
 // Settings returns filtering settings.
@@ -383,7 +380,7 @@ func (d *DNSFilter) Settings() (s *Settings) {
 	defer d.confMu.RUnlock()
 
 	return &Settings{
-		FilteringEnabled:    atomic.LoadUint32(&d.conf.enabled) != 0,
+		FilteringEnabled:    d.enabled.Load(),
 		SafeSearchEnabled:   d.conf.SafeSearchConf.Enabled,
 		SafeBrowsingEnabled: d.conf.SafeBrowsingEnabled,
 		ParentalEnabled:     d.conf.ParentalEnabled,
